@@ -68,7 +68,9 @@ def tiers(ctx):
     if q:
         mid.update(Lits=S("p1", "nl"), VarVals=S("p1", "d2"), CondVals=S("bT", "bF", "p1"), LoopLeafs=S("this", "idx"))
     else:
-        mid.update(Lits=S("p1", "nl"), VarVals=S("p1", "d2", "w1"), CondVals=S("bT", "bF", "p1"), LoopLeafs=S("this", "idx"))
+        # structure-focused: the non-plain value classes are covered in every position by the wide and loops layers
+        mid.update(Lits=S("p1", "nl"), VarVals=S("p1", "d2"), ThisVals=S("p1"), FldVals=S("p1"),
+                   CondVals=S("bT", "bF", "p1"), LoopLeafs=S("this", "idx"))
     loops = dict(Lits=S(), Conds=S(), QFlds=S(), Blocks=S(), Imgs=S(), CondOpens=S(), AllowExt=False, CondVals=S("bT"))
     layers = {
         # every name, literal and value class in every position of the smallest templates
@@ -79,7 +81,7 @@ def tiers(ctx):
     if not q:
         # every loop shape up to two levels with every value class and with unused data
         layers["loops"] = consts(FULL, loops, MaxNodes=3, MaxDepth=3, Vars=S("v1"), Flds=S("f1"), NoiseOpts=NOISE)
-    sim = dict(num=1200, depth=80, limit=5000) if q else dict(num=8000, depth=90, limit=40000)
+    sim = dict(num=1200, depth=80, limit=5000) if q else dict(num=10000, depth=90, limit=40000)
     simc = consts(FULL, MaxNodes=7 if q else 9, MinNodes=4 if q else 5, MaxDepth=3, NoiseOpts=NOISE)
     return mc, layers, simc, sim
 
@@ -123,7 +125,27 @@ def judge(ctx, cases, tag):
     return wits
 
 
+ASSUMPTIONS = [
+    "documented semantics = pkg/document/README.md (template section), README.md / README_zh.md examples, "
+    "examples/nested_loop_demo/README.md, CHANGELOG v1.3.6 (truthiness of loop-inner conditions), transcribed as Tmpl!Render",
+    "{{@index}} is 0-based (implementation and examples agree; no document states the base)",
+    "a loop over a list missing from the data renders nothing, like an empty list (the engine does this at the top level)",
+    "inside a loop over map items a condition is the truthiness of the item's field: absent, false, \"\" and 0 are false",
+    "never generated because the documentation does not fix the meaning: same name for a global variable and an item field, "
+    "{{else}} outside an if, unbalanced directives, whitespace-only lines, conditions inside loops over scalars, {{this}} of a "
+    "map item, lists mixing scalars and maps, loop variables outside loops, blocks inside other constructs, child-template text "
+    "outside blocks, overriding an undefined block, an image placeholder sharing its line with text or lacking image data, "
+    "floats whose shortest and fixed notations differ",
+    "output that is blank as a whole yields no paragraph (splitter behaviour, part of the reference: Tmpl!Norm)",
+    "a deviating case is a known finding when its class set includes the class set of a recorded finding (DESIGN §5 C16); "
+    "therefore cases containing a known-defective construct cannot reveal a second defect until the first is repaired",
+    "the comparison got == concretised expectation is a plain string equality in the Go harness; the judge recomputes "
+    "Tmpl!Render of the logged case and rejects the run (exit 2) if the harness compared against anything else",
+]
+
+
 def pipeline(ctx, cases_by=None):
+    ctx.assumptions = list(ASSUMPTIONS)
     if cases_by is not None:
         judge(ctx, cases_by, "replay")
         return ctx.finish(LEVEL, RULE)
